@@ -236,6 +236,15 @@ class Check:
         if note:
             r['note'] = note
 
+    def panic_rule(self, name, n_sites, analyses, floor_blocks):
+        """vacuity guard of a panic-freedom rule: what must not silently shrink is the code that was interpreted (basic blocks
+        of the entry points and everything inlined into them), not the number of panic sites - a tree that indexes less has
+        fewer sites and is no worse for it"""
+        blocks = sum(a.I.stats['blocks'] for a in analyses)
+        if os.environ.get('VERIF_DEBUG_BLOCKS'):
+            print('BLOCKS', name, blocks, 'sites', n_sites)
+        self.rule(name, blocks, floor_blocks, note=f"instances = basic blocks interpreted (every panic site in them is an obligation: {n_sites} distinct sites)")
+
     def sample(self, s):
         if len(self.samples) < 12:
             self.samples.append(s)
@@ -423,7 +432,8 @@ def decap_cfg(facts, extra=None):
             I.fail(w, frame, site, 'memory-invariant', 'saved context / storage not recognisable')
 
     cfg = {
-        'kslots': 2,
+        'kslots': int(os.environ.get('VERIF_DK', '4')),
+        'peel': True,          # first iteration of loops analysed on its own (the extension walker may run zero times)
         'trait_result_hooks': {TRAIT_MEM + 'take_frag': after_take, TRAIT_MEM + 'new_frag': after_new_frag},
         'call_hooks': {TRAIT_MEM + 'save_frag': before_save},
         'ret_hooks': header_ghosts(facts),
@@ -559,7 +569,28 @@ def encap_cfg(facts, out_buffer_root=None, extra=None):
         cur = w.mem.get(('G', 'writes'), ('agg', ()))
         if cur[0] != 'agg':
             return
-        w.mem[('G', 'writes')] = ('agg', cur[1] + (('agg', (('int', start), ('int', ln))),))
+        # the set of written intervals, adjacent ones coalesced (a cursor-driven writer keeps a single growing prefix, also
+        # inside loops); a write that is neither adjacent to nor provably disjoint from what was written before is recorded
+        if w.store.entails_eq(ln, Lin.c(0)):
+            return                         # writes nothing
+        ivs = [(x[1][0][1], x[1][1][1]) for x in cur[1]]
+        merged = False
+        for i, (s0, l0) in enumerate(ivs):
+            if w.store.entails_eq(s0 + l0, start):
+                ivs[i] = (s0, l0 + ln)
+                merged = True
+                break
+            if w.store.entails_eq(start + ln, s0):
+                ivs[i] = (start, l0 + ln)
+                merged = True
+                break
+        if not merged:
+            for (s0, l0) in ivs:
+                if not (w.store.entails(le(s0 + l0, start)) or w.store.entails(le(start + ln, s0))):
+                    I.rec(frame, site[1], 'event', site, ('write_overlap', start, ln, s0, l0, w.fork()))
+                    break
+            ivs.append((start, ln))
+        w.mem[('G', 'writes')] = ('agg', tuple(('agg', (('int', a), ('int', b))) for a, b in ivs))
 
     def after_header(I, w, frame, site, args, rv):
         w.mem[('G', 'hdr_val')] = rv
@@ -737,7 +768,7 @@ def writer_rows(ck, a, wname):
             continue
         part = hdr_partition(ck.facts, W)
         L = Lin.c(LABEL_LEN[part[1]]) if part else None
-        rows.append({'part': part, 'start': start, 'len': ln, 'src': describe_src(a, env, W, src, L), 'W': W, 'site': r.site})
+        rows.append({'part': part, 'start': start, 'len': ln, 'src': describe_src(a, env, W, src, L), 'raw': src, 'W': W, 'site': r.site})
     return env, rows
 
 
@@ -760,6 +791,21 @@ STATUS_OF_KIND = {'CompletePkt': 'CompletedPkt', 'FirstFragPkt': 'FragmentedPkt'
 
 def has_trunc(lin_):
     return any(isinstance(ATOMS.info(a).defn, tuple) and ATOMS.info(a).defn and ATOMS.info(a).defn[0] == 'trunc' for a in lin_.atoms())
+
+
+def feasible_with(w, *cons):
+    """can the world be extended with the given constraints?  The linear store plus the recorded disequalities (`x != y` facts,
+    which the store itself cannot hold): a disequality whose two sides are forced equal by store + constraints refutes it"""
+    st = w.store
+    for c in cons:
+        st = st.add(c)
+    if st.is_bottom():
+        return False
+    for k, v in w.facts.items():
+        if v is True and isinstance(k, tuple) and len(k) == 2 and k[0] == 'ne' and isinstance(k[1], Lin):
+            if st.entails_eq(k[1], Lin.c(0)):
+                return False
+    return True
 
 
 def known_ne(w, a, b):
